@@ -655,112 +655,117 @@ func c12LDAP(c *Ctx) {
 	// catch-all gate
 	ca := p.Method("services/ldap", "CatchAll", "handle")
 	if c.Anchor(ca != nil, "ldap-gate", "(*ldap.CatchAll).handle") {
-		var loginCalls []*ssa.Call
-		for _, call := range Calls(ca) {
-			if cv, ok := call.(*ssa.Call); ok && !cv.Call.IsInvoke() && cv.Call.StaticCallee() == nil {
-				if _, ok := isFieldLoadNamed(cv.Call.Value, "isLogin"); ok {
-					loginCalls = append(loginCalls, cv)
-				}
-			}
-		}
-		c.Check(len(loginCalls) > 0, "ldap-gate", "CatchAll consults isLogin", p.Pos(ca.Pos()), "", "catch-all handler never asks whether the session is logged in")
-		allow := func(b *ssa.BasicBlock, i int) bool {
-			if len(b.Instrs) == 0 {
-				return true
-			}
-			iff, ok := b.Instrs[len(b.Instrs)-1].(*ssa.If)
-			if !ok {
-				return true
-			}
-			atom, pol0 := condAtom(iff.Cond)
-			for _, lc := range loginCalls {
-				if atom == ssa.Value(lc) {
-					trueIdx := 0
-					if !pol0 {
-						trueIdx = 1
+		func() {
+			var loginCalls []*ssa.Call
+			for _, call := range Calls(ca) {
+				if cv, ok := call.(*ssa.Call); ok && !cv.Call.IsInvoke() && cv.Call.StaticCallee() == nil {
+					if _, ok := isFieldLoadNamed(cv.Call.Value, "isLogin"); ok {
+						loginCalls = append(loginCalls, cv)
 					}
-					return i != trueIdx
 				}
 			}
-			return true
-		}
-		stop := func(in ssa.Instruction) bool {
-			st, ok := in.(*ssa.Store)
-			if !ok {
-				return false
+			if len(loginCalls) == 0 && c12GateHelperForm(c, ca) {
+				return
 			}
-			fa, ok := st.Addr.(*ssa.FieldAddr)
-			if !ok || fieldNameOf(fa) != "resultCode" {
-				return false
-			}
-			n, isC := ConstInt(st.Val)
-			return isC && n != 0
-		}
-		reach := InstrReach(ca, allow, stop)
-		nrep := 0
-		for _, call := range Calls(ca) {
-			f := call.Common().StaticCallee()
-			if f == nil || !MethodIs(f, ModPath+"/services/ldap", "resultCodeHandler", "handle") {
-				continue
-			}
-			nrep++
-			c.Check(!reach(call), "ldap-gate", fmt.Sprintf("CatchAll reply[%d]", nrep), p.InstrPos(call), "not-logged-in sessions always get a non-success code", "the reply to add/modify/delete/modify-dn/compare is reachable for a session that is not logged in without a non-success result code being stored")
-		}
-		c.Check(nrep >= 1, "ldap-gate", "CatchAll replies", p.Pos(ca.Pos()), "", "no reply site found in the catch-all handler")
-		// the refusal stored for a session that is not logged in is what the reply carries: no later store to the
-		// result code can execute after it, unless that store is itself under isLogin()==true
-		loginIs := func(at ssa.Instruction, want bool) bool {
-			for _, dc := range DomConds(at) {
-				atom, pol0 := condAtom(dc.V)
+			c.Check(len(loginCalls) > 0, "ldap-gate", "CatchAll consults isLogin", p.Pos(ca.Pos()), "", "catch-all handler never asks whether the session is logged in")
+			allow := func(b *ssa.BasicBlock, i int) bool {
+				if len(b.Instrs) == 0 {
+					return true
+				}
+				iff, ok := b.Instrs[len(b.Instrs)-1].(*ssa.If)
+				if !ok {
+					return true
+				}
+				atom, pol0 := condAtom(iff.Cond)
 				for _, lc := range loginCalls {
-					if atom == ssa.Value(lc) && (pol0 == dc.Pol) == want {
-						return true
+					if atom == ssa.Value(lc) {
+						trueIdx := 0
+						if !pol0 {
+							trueIdx = 1
+						}
+						return i != trueIdx
 					}
 				}
+				return true
 			}
-			return false
-		}
-		loginKnown := func(at ssa.Instruction) bool { return loginIs(at, true) }
-		var rcStores, gateStores []*ssa.Store
-		for _, b := range ca.Blocks {
-			for _, in := range b.Instrs {
-				if st, ok := in.(*ssa.Store); ok {
-					if fa, ok := st.Addr.(*ssa.FieldAddr); ok && fieldNameOf(fa) == "resultCode" {
-						rcStores = append(rcStores, st)
-						if n, isC := ConstInt(st.Val); isC && n != 0 && loginIs(st, false) {
-							gateStores = append(gateStores, st)
+			stop := func(in ssa.Instruction) bool {
+				st, ok := in.(*ssa.Store)
+				if !ok {
+					return false
+				}
+				fa, ok := st.Addr.(*ssa.FieldAddr)
+				if !ok || fieldNameOf(fa) != "resultCode" {
+					return false
+				}
+				n, isC := ConstInt(st.Val)
+				return isC && n != 0
+			}
+			reach := InstrReach(ca, allow, stop)
+			nrep := 0
+			for _, call := range Calls(ca) {
+				f := call.Common().StaticCallee()
+				if f == nil || !MethodIs(f, ModPath+"/services/ldap", "resultCodeHandler", "handle") {
+					continue
+				}
+				nrep++
+				c.Check(!reach(call), "ldap-gate", fmt.Sprintf("CatchAll reply[%d]", nrep), p.InstrPos(call), "not-logged-in sessions always get a non-success code", "the reply to add/modify/delete/modify-dn/compare is reachable for a session that is not logged in without a non-success result code being stored")
+			}
+			c.Check(nrep >= 1, "ldap-gate", "CatchAll replies", p.Pos(ca.Pos()), "", "no reply site found in the catch-all handler")
+			// the refusal stored for a session that is not logged in is what the reply carries: no later store to the
+			// result code can execute after it, unless that store is itself under isLogin()==true
+			loginIs := func(at ssa.Instruction, want bool) bool {
+				for _, dc := range DomConds(at) {
+					atom, pol0 := condAtom(dc.V)
+					for _, lc := range loginCalls {
+						if atom == ssa.Value(lc) && (pol0 == dc.Pol) == want {
+							return true
+						}
+					}
+				}
+				return false
+			}
+			loginKnown := func(at ssa.Instruction) bool { return loginIs(at, true) }
+			var rcStores, gateStores []*ssa.Store
+			for _, b := range ca.Blocks {
+				for _, in := range b.Instrs {
+					if st, ok := in.(*ssa.Store); ok {
+						if fa, ok := st.Addr.(*ssa.FieldAddr); ok && fieldNameOf(fa) == "resultCode" {
+							rcStores = append(rcStores, st)
+							if n, isC := ConstInt(st.Val); isC && n != 0 && loginIs(st, false) {
+								gateStores = append(gateStores, st)
+							}
 						}
 					}
 				}
 			}
-		}
-		for _, gs := range gateStores {
-			after := InstrReachFrom(ca, gs, nil, nil)
-			for i, st := range rcStores {
-				if st == gs || !after(st) || loginKnown(st) {
-					continue
-				}
-				c.Violate("ldap-gate", fmt.Sprintf("result code store[%d] after the refusal", i), p.InstrPos(st), "the result code is written again ("+RenderN(st.Val, 2)+") after the not-logged-in refusal was stored, on a path a session that is not logged in takes: the gated operation is answered with this code instead of being refused")
-			}
-		}
-		c.Check(len(gateStores) >= 1, "ldap-gate", "refusal store under !isLogin", p.Pos(ca.Pos()), "the refusal is stored only for sessions that are not logged in and nothing overwrites it", "no refusal code is stored specifically for sessions that are not logged in")
-		// no success store after the gate other than the initial literal: every store of 0 must be in the entry-dominating literal (block 0..) before the isLogin branch
-		for _, b := range ca.Blocks {
-			for _, in := range b.Instrs {
-				st, ok := in.(*ssa.Store)
-				if !ok {
-					continue
-				}
-				fa, ok := st.Addr.(*ssa.FieldAddr)
-				if !ok || fieldNameOf(fa) != "resultCode" {
-					continue
-				}
-				if n, isC := ConstInt(st.Val); isC && n == 0 {
-					before := len(loginCalls) > 0 && st.Block().Dominates(loginCalls[0].Block()) && (st.Block() != loginCalls[0].Block() || true)
-					c.Check(before, "ldap-gate", "success code only as the default", p.InstrPos(st), "", "a success code is stored after the login gate")
+			for _, gs := range gateStores {
+				after := InstrReachFrom(ca, gs, nil, nil)
+				for i, st := range rcStores {
+					if st == gs || !after(st) || loginKnown(st) {
+						continue
+					}
+					c.Violate("ldap-gate", fmt.Sprintf("result code store[%d] after the refusal", i), p.InstrPos(st), "the result code is written again ("+RenderN(st.Val, 2)+") after the not-logged-in refusal was stored, on a path a session that is not logged in takes: the gated operation is answered with this code instead of being refused")
 				}
 			}
-		}
+			c.Check(len(gateStores) >= 1, "ldap-gate", "refusal store under !isLogin", p.Pos(ca.Pos()), "the refusal is stored only for sessions that are not logged in and nothing overwrites it", "no refusal code is stored specifically for sessions that are not logged in")
+			// no success store after the gate other than the initial literal: every store of 0 must be in the entry-dominating literal (block 0..) before the isLogin branch
+			for _, b := range ca.Blocks {
+				for _, in := range b.Instrs {
+					st, ok := in.(*ssa.Store)
+					if !ok {
+						continue
+					}
+					fa, ok := st.Addr.(*ssa.FieldAddr)
+					if !ok || fieldNameOf(fa) != "resultCode" {
+						continue
+					}
+					if n, isC := ConstInt(st.Val); isC && n == 0 {
+						before := len(loginCalls) > 0 && st.Block().Dominates(loginCalls[0].Block()) && (st.Block() != loginCalls[0].Block() || true)
+						c.Check(before, "ldap-gate", "success code only as the default", p.InstrPos(st), "", "a success code is stored after the login gate")
+					}
+				}
+			}
+		}()
 	}
 	// the isLogin closure really is login != ""
 	if c.Anchor(isLoginCl != nil, "ldap-gate", "closure assigned to CatchAll.isLogin") {
@@ -1076,4 +1081,92 @@ func unwrapBound(fn *ssa.Function) *ssa.Function {
 		return callee
 	}
 	return fn
+}
+
+// c12GateHelperForm: the catch-all takes its starting result code from a helper (`resultCode: c.authResultCode()`):
+// the helper returns the success code only under isLogin()==true and a non-success constant otherwise; in the handler that
+// store precedes every reply and nothing writes the result code after it.
+func c12GateHelperForm(c *Ctx, ca *ssa.Function) bool {
+	p := c.P
+	var gate *ssa.Store
+	var helper *ssa.Function
+	var rcStores []*ssa.Store
+	for _, b := range ca.Blocks {
+		for _, in := range b.Instrs {
+			st, ok := in.(*ssa.Store)
+			if !ok {
+				continue
+			}
+			fa, ok := st.Addr.(*ssa.FieldAddr)
+			if !ok || fieldNameOf(fa) != "resultCode" {
+				continue
+			}
+			rcStores = append(rcStores, st)
+			if call, ok := st.Val.(*ssa.Call); ok {
+				if hf := call.Call.StaticCallee(); hf != nil && InRepo(hf) && hf.Blocks != nil && len(call.Call.Args) >= 1 && call.Call.Args[0] == ssa.Value(ca.Params[0]) {
+					gate, helper = st, hf
+				}
+			}
+		}
+	}
+	if gate == nil {
+		return false
+	}
+	var loginCalls []*ssa.Call
+	for _, call := range Calls(helper) {
+		if cv, ok := call.(*ssa.Call); ok && !cv.Call.IsInvoke() && cv.Call.StaticCallee() == nil {
+			if _, ok := isFieldLoadNamed(cv.Call.Value, "isLogin"); ok {
+				loginCalls = append(loginCalls, cv)
+			}
+		}
+	}
+	if len(loginCalls) == 0 {
+		return false
+	}
+	loginIs := func(at ssa.Instruction, want bool) bool {
+		for _, dc := range DomConds(at) {
+			atom, pol0 := condAtom(dc.V)
+			for _, lc := range loginCalls {
+				if atom == ssa.Value(lc) && (pol0 == dc.Pol) == want {
+					return true
+				}
+			}
+		}
+		return false
+	}
+	c.Ok("ldap-gate", "CatchAll consults isLogin", p.Pos(ca.Pos()), "through "+shortFn(helper))
+	okHelper, refusals := true, 0
+	for _, r := range Returns(helper) {
+		n, isC := ConstInt(RetVals(r)[0])
+		switch {
+		case !isC:
+			okHelper = false
+		case n == 0:
+			if !loginIs(r, true) {
+				okHelper = false
+			}
+		default:
+			if loginIs(r, false) {
+				refusals++
+			}
+		}
+	}
+	c.Check(okHelper && refusals >= 1, "ldap-gate", "refusal store under !isLogin", p.Pos(helper.Pos()), "the helper yields success only for logged-in sessions and a refusal otherwise", "the helper that supplies the catch-all's result code returns the success code without isLogin() having been true (or has no refusal for sessions that are not logged in)")
+	nrep := 0
+	for _, call := range Calls(ca) {
+		f := call.Common().StaticCallee()
+		if f == nil || !MethodIs(f, ModPath+"/services/ldap", "resultCodeHandler", "handle") {
+			continue
+		}
+		nrep++
+		c.Check(gate.Block().Dominates(call.Block()), "ldap-gate", fmt.Sprintf("CatchAll reply[%d]", nrep), p.InstrPos(call), "the gated result code is in place before the reply", "a reply of the catch-all is reachable without the login-dependent result code having been stored")
+	}
+	c.Check(nrep >= 1, "ldap-gate", "CatchAll replies", p.Pos(ca.Pos()), "", "no reply site found in the catch-all handler")
+	after := InstrReachFrom(ca, gate, nil, nil)
+	for i, st := range rcStores {
+		if st != gate && after(st) {
+			c.Violate("ldap-gate", fmt.Sprintf("result code store[%d] after the refusal", i), p.InstrPos(st), "the result code is written again ("+RenderN(st.Val, 2)+") after the login-dependent code was stored: a session that is not logged in is answered with this code instead of being refused")
+		}
+	}
+	return true
 }
